@@ -253,6 +253,14 @@ func c19Exec(cp *c19Corpus, sigs []*sigbits.SigBits, call c19Call, g *c19Guards)
 		}
 		return l
 	}
+	// a word-slice result must not be a view of the word-slice argument (checked in the guarded replay, where the
+	// argument is a private copy: the shared corpus itself is never handed to anything that might be appended to)
+	noAlias := func(res, arg []uint64) []uint64 {
+		if g != nil && overlapW(res, arg) {
+			g.alias = true
+		}
+		return res
+	}
 	h := uint64(call.fn)
 	switch int(call.fn) {
 	case fRank64:
@@ -280,7 +288,8 @@ func c19Exec(cp *c19Corpus, sigs []*sigbits.SigBits, call c19Call, g *c19Guards)
 	case fPrevOne:
 		return gen.Hash64(h, uint64(uint32(bitmap.PrevOne(W(PW(cp.bms[call.a].words)), call.b, call.c))))
 	case fSlice:
-		return gen.Hash64(h, gen.HashWords(bitmap.Slice(W(PW(cp.bms[call.a].words)), call.b, call.c)))
+		arg := W(PW(cp.bms[call.a].words))
+		return gen.Hash64(h, gen.HashWords(noAlias(bitmap.Slice(arg, call.b, call.c), arg)))
 	case fToArray:
 		return hI32(h, bitmap.ToArray(W(PW(cp.bms[call.a].words))))
 	case fGetw:
@@ -307,7 +316,8 @@ func c19Exec(cp *c19Corpus, sigs []*sigbits.SigBits, call c19Call, g *c19Guards)
 		}
 		return gen.Hash64(h, gen.HashWords(bitmap.Of(I(PI(src)), int32(64*len(b.words)))))
 	case fJoin:
-		return gen.Hash64(h, gen.HashWords(bitmap.Join(W(PW(cp.vals[call.a])), call.b)))
+		arg := W(PW(cp.vals[call.a]))
+		return gen.Hash64(h, gen.HashWords(noAlias(bitmap.Join(arg, call.b), arg)))
 	case fPathToIndex:
 		var m uint32
 		if int(call.a) < len(cp.masks) {
@@ -329,9 +339,14 @@ func c19Exec(cp *c19Corpus, sigs []*sigbits.SigBits, call c19Call, g *c19Guards)
 		return gen.Hash64(h, bmtree.IndexToPath(call.a, call.b))
 	case fAllPaths:
 		m := cp.masks[call.a]
-		return gen.Hash64(h, gen.HashWords(bmtree.AllPaths(int32(m), uint64(call.b)<<31, uint64(call.c)<<31)))
+		ap := bmtree.AllPaths(int32(m), uint64(call.b)<<31, uint64(call.c)<<31)
+		if g != nil && overlapW(ap, bmtree.AllPaths(int32(m), uint64(call.b)<<31, uint64(call.c)<<31)) {
+			g.alias = true
+		}
+		return gen.Hash64(h, gen.HashWords(ap))
 	case fDecode:
-		return gen.Hash64(h, gen.HashWords(bmtree.Decode(int32(cp.masks[call.a]), W(PW(cp.decBms[call.a])))))
+		arg := W(PW(cp.decBms[call.a]))
+		return gen.Hash64(h, gen.HashWords(noAlias(bmtree.Decode(int32(cp.masks[call.a]), arg), arg)))
 	case fPathsOf:
 		ks := L(cp.keyLists[call.a])
 		ht := call.c >> 1
@@ -356,12 +371,23 @@ func c19Exec(cp *c19Corpus, sigs []*sigbits.SigBits, call c19Call, g *c19Guards)
 	case fBitstrNewLen:
 		src := cp.encSrc[call.a]
 		e := bitstr.New(S(cp.strs[src[0]]), int32(src[1]), int32(src[2]))
+		if g != nil {
+			// two calls hand out two objects: the results must not share memory (one owner writing to its encoding
+			// would change the other's)
+			if e2 := bitstr.New(cp.strs[src[0]], int32(src[1]), int32(src[2])); overlapB(e, e2) {
+				g.alias = true
+			}
+		}
 		return gen.Hash64(h, gen.HashBytes(e), uint64(bitstr.Len(e)), uint64(bitstr.Len(B(cp.encs[call.a]))))
 	case fBitwordFromStrGet:
 		n := c19BWWidths[call.a]
 		bw := bitword.BitWord[n]
 		s := S(cp.strs[call.b])
-		h = gen.Hash64(h, gen.HashBytes(bw.FromStr(s)))
+		fs := bw.FromStr(s)
+		if g != nil && overlapB(fs, bw.FromStr(s)) {
+			g.alias = true
+		}
+		h = gen.Hash64(h, gen.HashBytes(fs))
 		if nw := 8 * len(s) / n; nw > 0 {
 			h = gen.Hash64(h, uint64(bw.Get(s, int(call.c)%nw)))
 		}
